@@ -74,7 +74,51 @@ def classify_debug_diff(base_lat, dbg_lat):
     return 'none'
 
 
+def prim_group(gid, p, s1, s2, t1, t2):
+    common.import_repo()
+    from leuvenmapmatching.util import dist_euclidean as de
+    frames = [('base', geom.Conc()), ('axis-swap', geom.Conc(swap=True)), ('translate', geom.Conc(off=(1024.0, -4096.0))),
+              ('translate-1e5', geom.Conc(off=(131072.0, 65536.0)))] + [(f'scale-2^{k}', geom.Conc(k=k)) for k in (-14, -3, 4, 10)]
+    runs = []
+    for name, c in frames:
+        P, S1, S2, T1, T2 = (c.loc(x) for x in (p, s1, s2, t1, t2))
+        exc, vals = '', []
+        try:
+            d_ps, _, ti = de.distance_point_to_segment(P, S1, S2)
+            d_ss = de.distance_segment_to_segment(S1, S2, T1, T2)[0]
+            d_pp = de.distance(P, T1)
+            vals = [d_ps / c.s, float(ti), d_ss / c.s, d_pp / c.s]
+        except Exception as ex:
+            exc = (type(ex).__name__ + ': ' + str(ex))[:200]
+        path = [{'st': [j], 'obs': 0, 'ne': 0, 'lp': geom.fx(v), 'lpe': 0, 'lpne': 0, 'prev': [], 'stop': False, 'len': 1,
+                 'delayed': 0, 'dist': 0} for j, v in enumerate(vals)]
+        runs.append({'conc': c.desc(), 'hashseed': -1, 'name': name, 'exc': exc, 'idx': 0, 'states': [], 'path': path,
+                     'lat': [], 'tol': 1, 'rel': 1, 'exact': False, 'tiefree_path': False})
+    return {'gid': gid, 'kind': 'primitive', 'inst': {'p': p, 's': [s1, s2], 't': [t1, t2]}, 'cf': {}, 'ops': [],
+            'runs': runs, 'check_robust': False, 'obs4': [], 'edges4': []}
+
+
+def prim_groups(rng, n, gid0):
+    """C16, anchor "geometry uses coordinate differences only": the planar primitives of one abstract configuration
+    (quarter-grid point and two segments) evaluated in several frames (axis swap, translations by exactly representable
+    offsets, scalings by powers of two); every value is mapped back to the abstract frame.  Values per frame:
+    point-segment distance, relative position, segment-segment distance, point-point distance."""
+    groups = []
+    for i in range(n):
+        G = rng.choice([2, 3, 4, 6])
+        q = lambda: [rng.randint(-2, 4 * G + 2) / 4.0, rng.randint(-2, 4 * G + 2) / 4.0]
+        p, s1, s2, t1, t2 = q(), q(), q(), q(), q()
+        if rng.random() < 0.15:
+            t2 = [t1[0] + (s2[0] - s1[0]), t1[1] + (s2[1] - s1[1])]       # parallel
+        if rng.random() < 0.05:
+            s2 = list(s1)                                                  # zero length
+        groups.append(prim_group(gid0 + i, p, s1, s2, t1, t2))
+    return groups
+
+
 def validate(chk, pid, groups, label):
+    for g in groups:
+        g.setdefault('kind', 'match')
     path = os.path.join(common.scratch(), f'embed_{label}.json')
     with open(path, 'w') as f:
         json.dump(common.nonull({'pid': pid, 'groups': groups}), f)
@@ -135,6 +179,10 @@ def make_groups(chk, pid, rng, n_groups, thorough):
             if gi % 4 == 0:
                 cf.update(max_dist=None, max_dist_init=0.6, min_prob_norm=None, W=rng.choice([1, 2, 2]),
                           ne=rng.random() < 0.25)
+            if gi % 4 == 2:
+                # frame-sensitive geometry: observation segments against map edges (non-emitting states), no cut-offs
+                # that could stop the match before the interesting part
+                cf.update(ne=True, max_dist=None, max_dist_init=None, min_prob_norm=None)
             ops = rand_ops(rng, T, cf) if gi % 4 else [('match', T)]
             base = run_one(inst, cf, geom.Conc(), ops, full=True)
             runs.append(obs_of(base, 'base', keep_lat=True))
@@ -290,8 +338,10 @@ def run(chk):
     pid, thorough = chk.pid, chk.tier == 'thorough'
     rng = random.Random(chk.seed * 15485863 + int(pid[1:]))
     extra_groups = design_level(chk, pid, thorough)
-    n = {'C10': (420, 2000), 'C16': (700, 3000), 'C17': (2600, 12000), 'C19': (900, 6000), 'C15': (300, 2000), 'C12': (300, 2500)}[pid][thorough]
+    n = {'C10': (420, 2000), 'C16': (1000, 4000), 'C17': (2600, 12000), 'C19': (900, 6000), 'C15': (300, 2000), 'C12': (300, 2500)}[pid][thorough]
     groups = make_groups(chk, pid, rng, n, thorough) + extra_groups
+    if pid == 'C16':
+        groups += prim_groups(rng, 20000 if thorough else 3000, 700000)
     verdicts = validate(chk, pid, groups, pid)
     nontriv = 0
     for g in groups:
@@ -302,8 +352,12 @@ def run(chk):
             sig = {'clause': clause}
             if pid == 'C19':
                 sig['first_lattice_difference'] = g['runs'][-1].get('latdiff', 'none')
-            if pid in ('C10', 'C16') and not g.get('abs'):
+            if pid in ('C10', 'C16') and not g.get('abs') and g.get('kind') != 'primitive':
                 order_sig(sig, clause, name, g['inst'], g['cf'], g['ops'], g['runs'])
+            if g.get('kind') == 'primitive':
+                chk.violation(f'planar primitives of {g["inst"]}: {clause} under {name}',
+                              {'kind': 'embed-prim', 'inst': g['inst'], 'verdict': v, 'pid': pid}, sig=sig)
+                continue
             chk.violation(f'group {g["gid"]}: {clause} under {name}',
                           {'kind': 'embed', 'inst': g['inst'], 'cf': g['cf'], 'ops': g['ops'], 'verdict': v,
                            'pid': pid, 'abs': g.get('abs', False), 'check_robust': g.get('check_robust', False), 'obs4': g.get('obs4', []), 'edges4': g.get('edges4', []),
@@ -320,6 +374,15 @@ def run(chk):
 
 def replay(pid, case):
     c = case['case']
+    if c.get('kind') == 'embed-prim':
+        i = c['inst']
+        g = prim_group(1, i['p'], i['s'][0], i['s'][1], i['t'][0], i['t'][1])
+        v = validate(common.Check(pid, 'quick', 0), pid, [g], 'replay')[1]
+        if v:
+            print(f'VIOLATION property={pid} replay=(given)   # {v}')
+            return 1
+        print('replay: group accepted')
+        return 0
     if c.get('kind') != 'embed':
         from . import maps
         return maps.replay(pid, case)
